@@ -905,7 +905,7 @@ static const struct cscope quick_scopes[] = {
 };
 static const struct cscope thorough_scopes[] = {
     { 2, 2, M(0) | M(4), M(N_0) | M(N_1) | M(N_3) | HUGE_NM | M(N_MAXM1) | M(N_HDRFIT) | M(N_2P32), M(N_0) | M(N_3),
-      ALL_BOUNDS, ALL_BOUNDS, 1, 400000, 14, M(N_1) | M(N_MID), 1 },
+      ALL_BOUNDS, ALL_BOUNDS, 1, 400000, 14, 0, 0 },
     { 3, 2, M(2), M(N_0) | M(N_2) | M(N_2P63) | M(N_MAX), M(N_2),
       M(S_0) | M(S_1) | M(S_MAXM1) | M(S_MAXOFF1),
       M(S_0) | M(S_1) | M(S_2) | M(S_LEN1) | M(S_REM) | M(S_REM1) | M(S_MAXOFF1) | M(S_MAX) | M(S_WRAPREM), 1, 400000, 12, M(N_1) | M(N_MID), 1 },
@@ -913,7 +913,10 @@ static const struct cscope thorough_scopes[] = {
       M(S_0) | M(S_1), M(S_1) | M(S_LEN) | M(S_REM) | M(S_REM1) | M(S_MAXOFF1), 0, 400000, 12, M(N_MID), 0 },
     { 4, 3, M(1), M(N_2) | M(N_MAXDIV1), M(N_2), M(S_0) | M(S_1) | M(S_MAXM1),
       M(S_2) | M(S_REM) | M(S_REM1) | M(S_WRAPREM), 1, 400000, 5, M(N_MID), 1 },
-    { 4, 2, M(4), M(N_2), M(N_2), M(S_0) | M(S_1), M(S_1) | M(S_REM) | M(S_REM1), 0, 400000, 12, M(N_MID), 1 },
+    { 4, 2, M(4), M(N_2), M(N_2), M(S_0) | M(S_1), M(S_1) | M(S_REM) | M(S_REM1), 0, 400000, 12, 0, 1 },
+    /* separate wrappers over one block with two element sizes (different geometry), NULL wrappers */
+    { 2, 2, M(0) | M(2), M(N_3), M(N_0) | M(N_3), M(S_0) | M(S_1),
+      M(S_0) | M(S_1) | M(S_2) | M(S_LEN) | M(S_REM) | M(S_REM1), 0, 400000, 12, M(N_1) | M(N_MID), 1 },
 };
 static const struct cscope *scopes;
 static int nscopes;
